@@ -241,14 +241,39 @@ func (c *Ctx) ruleUTF16() {
 	little, okL := c.constBoolInt("golang.org/x/text/encoding/unicode", "LittleEndian")
 	usesLE := func(fn *ssa.Function) (bool, string) {
 		found, det := false, "no call of unicode.UTF16"
+		judge := func(call *ssa.Call) {
+			k, isK := evalConstBoolInt(call.Call.Args[0])
+			if okL && isK && k == little {
+				found = true
+			} else {
+				det = "unicode.UTF16 is not called with LittleEndian"
+			}
+		}
 		for _, f := range withAnon(fn) {
 			instrsOf(f, func(i ssa.Instruction) {
 				if call, ok := i.(*ssa.Call); ok && ir.CallID(call) == "golang.org/x/text/encoding/unicode.UTF16" {
-					k, isK := evalConstBoolInt(call.Call.Args[0])
-					if okL && isK && k == little {
-						found = true
-					} else {
-						det = "unicode.UTF16 is not called with LittleEndian"
+					judge(call)
+				}
+				// the encoding kept in a package-level variable that is assigned once, in the initialiser
+				if ld, ok := i.(*ssa.UnOp); ok && ld.Op == token.MUL {
+					if g, isG := ld.X.(*ssa.Global); isG && g.Pkg != nil && c.P.InModule(g.Pkg.Func("init")) {
+						var stores []*ssa.Store
+						for _, m := range g.Pkg.Members {
+							if mf, isF := m.(*ssa.Function); isF {
+								for _, ff := range withAnon(mf) {
+									instrsOf(ff, func(j ssa.Instruction) {
+										if st, isSt := j.(*ssa.Store); isSt && st.Addr == ssa.Value(g) {
+											stores = append(stores, st)
+										}
+									})
+								}
+							}
+						}
+						if len(stores) == 1 && stores[0].Parent() == g.Pkg.Func("init") {
+							if call, isC := ir.StripIface(stores[0].Val).(*ssa.Call); isC && ir.CallID(call) == "golang.org/x/text/encoding/unicode.UTF16" {
+								judge(call)
+							}
+						}
 					}
 				}
 			})
@@ -298,6 +323,14 @@ func (c *Ctx) ruleUTF16() {
 		e := c.accept()
 		e.Require("A-u.utf16", fn, []*fact{{id: "terminated", what: "the decoded text ends in the NUL terminator",
 			direct: func(c *Ctx, fn *ssa.Function, ce ir.CondEdge) bool {
+				if call, isCall := ce.Cond.(*ssa.Call); isCall && ce.Truth && ir.CallID(call) == "bytes.HasSuffix" {
+					if elems, isLit := variadicElems(call.Call.Args[1]); isLit && len(elems) == 1 {
+						if k, isK := ir.ConstInt(elems[0]); isK && k == 0 {
+							return true
+						}
+					}
+					return constBytesEqual(call.Call.Args[1], "\x00")
+				}
 				cmp, ok := ce.Cond.(*ssa.BinOp)
 				if !ok || (cmp.Op != token.EQL && cmp.Op != token.NEQ) || ce.Truth != (cmp.Op == token.EQL) {
 					return false
@@ -437,17 +470,35 @@ func checkC18(c *Ctx) {
 			c.R.Undecf("H2.bootname", name(fn), "name", c.Pos(fn.Pos()), "the boot entry names produced must be identifiable", "no append of strings found")
 			continue
 		}
+		dv := c.deepViewOf(fn, 2)
 		for k, nm := range names {
-			lang := c.stringLang(nm, 0)
+			lang := dv.strLang(nm, dv.root, 0)
 			ok := len(lang) == 2 && lang[0].kind == "lit" && lang[0].lit == "Boot" && lang[1].kind == "hex" && lang[1].digits == 4 && lang[1].upper
 			det := "language is " + langString(lang) + "; firmware names the variables Boot#### with four upper-case hexadecimal digits"
 			construct := "name"
 			if k > 0 {
 				construct = fmt.Sprintf("name#%d", k+1)
 			}
+			lower, opaque := false, false
+			for _, sg := range lang {
+				if sg.kind == "hex" && !sg.upper {
+					lower = true
+				}
+				if sg.kind == "var" {
+					opaque = true
+				}
+			}
+			if !ok && opaque && !lower {
+				c.R.Infof("H2.bootname", name(fn), construct, c.Pos(nm.Pos()), "not decided for this shape: the name is built in a way the string evaluator does not model ("+langString(lang)+")")
+				continue
+			}
 			c.R.Check(ok, "H2.bootname", name(fn), construct, c.Pos(nm.Pos()), "every boot entry name is \"Boot\" followed by exactly four upper-case hex digits and nothing else", det)
 			if ok {
-				c.bootValue(fn, lang[1].val, construct)
+				v := lang[1].val
+				if lang[1].fr != nil {
+					v = dv.resolveAll(v, lang[1].fr).v
+				}
+				c.bootValue(fn, v, construct)
 			}
 		}
 	}
